@@ -150,6 +150,172 @@ func runC12(c *Ctx) {
 	c12Wire(c)
 	c12Add(c)
 	c12InPlace(c)
+	c12Ownership(c)
+	c12Touching(c)
+}
+
+// c12Ownership (R12f): the package never writes into byte slices it did not allocate
+// itself (blobs handed to Add stay the caller's; stored blobs may alias caller buffers).
+func c12Ownership(c *Ctx) {
+	p := c.P
+	c.Rule("R12f", "lib/binpatch writes (copy / append / element store) only into byte slices it allocated itself, never into caller-provided blobs or blobs already stored in the PatchSet", 1)
+	n := 0
+	for _, fn := range p.Funcs {
+		if pk := pkgOf(fn); pk == nil || p.Rel(pk.Path()) != "lib/binpatch" {
+			continue
+		}
+		foreign := func(v ssa.Value) (string, bool) {
+			// a []byte that comes from a parameter or from PatchSet.Blobs, not from make()
+			if t, ok := v.Type().Underlying().(*types.Slice); !ok || intWidth(t.Elem()) != 8 {
+				return "", false
+			}
+			fresh := dependsOn(v, func(x ssa.Value) bool { _, ok := x.(*ssa.MakeSlice); return ok })
+			if fresh {
+				return "", false
+			}
+			if dependsOn(v, func(x ssa.Value) bool { return p.memKey(x) == "f:lib/binpatch.PatchSet.Blobs" }) {
+				return "a blob stored in the PatchSet", true
+			}
+			if dependsOn(v, func(x ssa.Value) bool { _, ok := x.(*ssa.Parameter); return ok && x.Type().String() == "[]byte" }) {
+				return "a caller-provided blob", true
+			}
+			return "", false
+		}
+		for _, b := range fn.Blocks {
+			for _, in := range b.Instrs {
+				var dst ssa.Value
+				what := ""
+				switch x := in.(type) {
+				case *ssa.Call:
+					if bi, ok := x.Call.Value.(*ssa.Builtin); ok {
+						switch bi.Name() {
+						case "copy":
+							dst, what = x.Call.Args[0], "copy into"
+						case "append":
+							dst, what = x.Call.Args[0], "append to"
+						}
+					}
+				case *ssa.Store:
+					if ia, ok := x.Addr.(*ssa.IndexAddr); ok {
+						dst, what = ia.X, "element store into"
+					}
+				}
+				if dst == nil {
+					continue
+				}
+				if t, ok := dst.Type().Underlying().(*types.Slice); !ok || intWidth(t.Elem()) != 8 {
+					continue
+				}
+				n++
+				key := fmt.Sprintf("%s %s#%d", p.FName(fn), strings.Fields(what)[0], n)
+				c.Analysed(p.FName(fn))
+				if src, bad := foreign(dst); bad {
+					c.Fail("R12f", key, p.Pos(in.Pos()), what+" "+src+": the bytes may live in a buffer the caller still uses (append writes into its spare capacity), so earlier patch content or the caller's data is silently overwritten")
+				} else {
+					c.Pass("R12f", key, p.Pos(in.Pos()), "destination allocated here")
+				}
+			}
+		}
+	}
+}
+
+// c12Touching (R12g): Add produces adjacent, un-coalesced ranges (offset == previous end)
+// in legitimate cases, so every ordering test between a patch offset and the running end
+// of the previous patch must accept equality.
+func c12Touching(c *Ctx) {
+	p := c.P
+	c.Rule("R12g", "every ordering test between a patch's Offset and the end of the previous patch accepts touching ranges (Offset == previous end)", 1)
+	n := 0
+	for _, fn := range p.Funcs {
+		if pk := pkgOf(fn); pk == nil || p.Rel(pk.Path()) != "lib/binpatch" {
+			continue
+		}
+		isOffset := func(v ssa.Value) bool {
+			return dependsOn(v, func(x ssa.Value) bool { _, f, _ := p.fieldLoad(x); return f == "Offset" })
+		}
+		// a running position: a phi carried around a loop
+		isRunning := func(v ssa.Value) bool {
+			return dependsOn(v, func(x ssa.Value) bool {
+				ph, ok := x.(*ssa.Phi)
+				if !ok || intWidth(ph.Type()) != 64 || !inCycleWith(fn, ph.Block(), nil) {
+					return false
+				}
+				// accumulates patch extents (not the loop index)
+				for _, e := range ph.Edges {
+					if dependsOn(e, func(y ssa.Value) bool {
+						_, f, _ := p.fieldLoad(y)
+						return f == "Offset" || f == "OldSize"
+					}) {
+						return true
+					}
+				}
+				return false
+			})
+		}
+		succ := p.successReturns(fn)
+		for _, b := range fn.Blocks {
+			ifi, ok := b.Instrs[len(b.Instrs)-1].(*ssa.If)
+			if !ok {
+				continue
+			}
+			bo, ok := ifi.Cond.(*ssa.BinOp)
+			if !ok {
+				continue
+			}
+			var cur, prev ssa.Value
+			op := bo.Op
+			switch {
+			case isOffset(bo.X) && isRunning(bo.X) && isIntConst(bo.Y, 0):
+				// delta := patch.Offset - pos; delta < 0
+				cur, prev = bo.X, bo.Y
+			case isOffset(bo.X) && !isRunning(bo.X) && isRunning(bo.Y):
+				cur, prev = bo.X, bo.Y
+			case isOffset(bo.Y) && !isRunning(bo.Y) && isRunning(bo.X):
+				cur, prev = bo.Y, bo.X
+				switch op {
+				case token.LSS:
+					op = token.GTR
+				case token.LEQ:
+					op = token.GEQ
+				case token.GTR:
+					op = token.LSS
+				case token.GEQ:
+					op = token.LEQ
+				}
+			default:
+				continue
+			}
+			_ = cur
+			_ = prev
+			switch op {
+			case token.LSS, token.LEQ, token.GTR, token.GEQ:
+			default:
+				continue
+			}
+			// which edge rejects (cannot reach a success return)?
+			rejects := func(si int) bool {
+				seen := reach(fn, []*ssa.BasicBlock{b.Succs[si]}, nil, nil)
+				for _, r := range succ {
+					if seen[r.Block().Index] {
+						return false
+					}
+				}
+				return len(succ) > 0
+			}
+			rt, rf := rejects(0), rejects(1)
+			if rt == rf {
+				continue // not a validity test
+			}
+			n++
+			// is equality on the rejecting side?  cur OP prev with equality: true for <=,>= ; false for <,>
+			eqTrue := op == token.LEQ || op == token.GEQ
+			eqRejected := (rt && eqTrue) || (rf && !eqTrue)
+			// only tests of the form "cur before prev => reject" concern us: reject side is cur<prev or cur<=prev
+			key := fmt.Sprintf("%s offset-order test#%d", p.FName(fn), n)
+			c.Analysed(p.FName(fn))
+			c.Check(!eqRejected, "R12g", key, p.Pos(ifi.Pos()), "a range that starts exactly where the previous one ended is accepted", "this ordering test rejects a patch that starts exactly at the end of the previous one; PatchSet.Add produces such touching ranges (coalescing limits, non-consecutive adds), so a valid patch set fails after Dump/Load or cannot be applied")
+		}
+	}
 }
 
 func c12Wire(c *Ctx) {
@@ -409,6 +575,16 @@ func c12InPlace(c *Ctx) {
 		}
 		check("size-preserving or last patch", samesize, isLast)
 		check("size-preserving or ending at EOF", samesize, atEOF)
+	}
+	// the in-place writes also need canOverwrite (regular file, same inode, no hard links)
+	// on every path — also when the output name equals the input name
+	{
+		can := p.callGuard("canOverwrite()==true", []string{"lib/binpatch.canOverwrite"}, -1, IsTrue, nil)
+		lst := p.callGuard("Lstat err==nil", []string{"os.Lstat", "os.Stat"}, 1, IsNil, nil)
+		for i, s := range sinks {
+			missing, path := p.unguardedFromEntry(ap, s, can, lst)
+			c.Check(len(missing) == 0, "R12e", fmt.Sprintf("(*lib/binpatch.PatchSet).Apply in-place write#%d under canOverwrite", i+1), p.Pos(s.Pos()), "in-place only when canOverwrite proved the target is the same, singly linked regular file", fmt.Sprintf("the input file is modified in place on a path without %v (a hard-linked or replaced output path would be corrupted / left unpatched)", missing), path...)
+		}
 	}
 	// Truncate size is either the original size or Offset+NewSize of the last patch
 	for _, ci := range p.callsIn(ap, "(*os.File).Truncate") {
